@@ -42,6 +42,17 @@ def same(a, b):
     return a == b
 
 
+def concretise_int(x, candidates=range(0, 9)):
+    """If the path condition forces the symbolic integer to one small value, return it."""
+    if not is_sym(x):
+        return x
+    c = core.ctx()
+    for k in candidates:
+        if not c.feasible(x.z != k):
+            return k
+    return None
+
+
 def known_true(cond):
     """Is cond implied by the current path condition? (no branching)"""
     if isinstance(cond, bool):
@@ -207,8 +218,26 @@ class NDArray:
         if n is None:
             raise_(TypeError, 'iteration over a 0-d array')
         if is_sym(n):
-            raise Unsupported('iteration over an array with symbolic first extent')
-        return iter([self._getitem(k) for k in range(n)])
+            n = concretise_int(n)
+            if n is None:
+                raise Unsupported('iteration over an array with symbolic first extent')
+        return iter([self._getitem_norm((k,), check=False) for k in range(n)])
+
+    def _iop(self, opname, other):
+        """In-place operators mutate the buffer (visible through every alias, as in numpy)."""
+        ops = {'Add': lambda a, b: a + b, 'Sub': lambda a, b: a - b, 'Mult': lambda a, b: a * b,
+               'BitOr': lambda a, b: a | b, 'BitAnd': lambda a, b: a & b}
+        if opname not in ops:
+            return NotImplemented
+        if not self.writeable:
+            raise_(ValueError, 'output array is read-only')
+        new = elementwise2(NDArray(self.shape, self.fn, self.dtype, self.mask_fn), other, ops[opname])
+        if len(new.shape) != len(self.shape):
+            raise_(ValueError, 'non-broadcastable output operand')
+        self.fn = new.fn
+        core.ctx().event('inplace-array-op', opname)
+        self._propagate()
+        return self
 
     def _lazy_map(self, fn, cond):
         return self._rows()._lazy_map(fn, cond)
